@@ -19,6 +19,8 @@ func c17(c *eng.Ctx, r *eng.Report) {
 		"R17.2 MarkExecuted writes and flushes the executed records before it removes the transactions from pending, UnMarkExecuted deletes the executed record before it re-adds the transaction; " +
 		"R17.3 PackForCast never returns more than the per-block limit, checkNonce sorts first, never packs a transaction on the `expected < nonce` edge, and every transaction that advances its sender's expected nonce is packed; " +
 		"R17.4 every field of TxPool/simpleContainer is of a thread-safe type, immutable after construction, or accessed only with its mutex held (lockset over all access sites, helper functions checked at their call sites). " +
+		"R17.6 what the pool iterates over is one atomic snapshot of the pending map: every simpleContainer method that hands out a slice returns the result of a single call on the underlying map (possibly re-sliced), never a slice assembled from separate per-key lookups — between listing the keys and looking them up MarkExecuted or an eviction may remove an entry, and the hole is a nil the packer type-asserts; " +
+		"R17.7 the executed-record batch, which lives as long as the pool, is Reset() after every Write() on every path (a batch that keeps its content replays old executed marks with the next block, undoing an UnMarkExecuted); " +
 		"R17.5 the pending container's push stores the transaction unless the container is full — no other drop condition (the path a reorged block's transactions return through). " +
 		"Not decided: linearizability of concurrent histories; behaviour of the third-party containers."
 	r.Assume = []string{"hashicorp/golang-lru Cache, gogf gmap.ListMap(safe=true), sync.Map and LevelDB handles are safe for concurrent use", "chain-level callers hold middleware.LockBlockchain (not checked here)"}
@@ -74,6 +76,9 @@ func c17(c *eng.Ctx, r *eng.Report) {
 	c17Pack(c, r)
 	c17Lockset(c, r)
 	c17PushTotal(c, r)
+	c17Snapshot(c, r)
+	r.Min("R17.7", 3)
+	batchResetAs(c, r, "R17.7", "service", 2)
 }
 
 // c17PushTotal: once add() decided that a transaction is neither pending nor
@@ -626,4 +631,61 @@ func heldAt(c *eng.Ctx, fn *ssa.Function, at ssa.Instruction, tname, lock string
 		}
 	}
 	return true, "held by every caller"
+}
+
+// c17Snapshot: the linked map locks each call, so one Values() call is an
+// atomic snapshot while Keys() followed by Get(key) is not.
+func c17Snapshot(c *eng.Ctx, r *eng.Report) {
+	const rule = "R17.6"
+	r.Min(rule, 1)
+	n := 0
+	for _, fn := range c.PkgFuncs("service") {
+		if c.IsTestFunc(fn) || fn.Signature.Recv() == nil || !strings.Contains(fn.Signature.Recv().Type().String(), "simpleContainer") {
+			continue
+		}
+		if fn.Signature.Results().Len() != 1 {
+			continue
+		}
+		if _, isSlice := fn.Signature.Results().At(0).Type().Underlying().(*types.Slice); !isSlice {
+			continue
+		}
+		n++
+		bad := ""
+		var direct func(v ssa.Value, d int) bool
+		direct = func(v ssa.Value, d int) bool {
+			if d > 6 {
+				return false
+			}
+			switch x := v.(type) {
+			case *ssa.Call:
+				// a call on the container's map (c.data.X()) — one locked operation
+				if len(x.Call.Args) > 0 || x.Call.IsInvoke() {
+					recv := x.Call.Value
+					if !x.Call.IsInvoke() {
+						recv = x.Call.Args[0]
+					}
+					return strings.HasSuffix(eng.Desc(recv), ".data")
+				}
+			case *ssa.Slice:
+				return direct(x.X, d+1)
+			case *ssa.Phi:
+				for _, e := range x.Edges {
+					if !direct(e, d+1) {
+						return false
+					}
+				}
+				return len(x.Edges) > 0
+			case *ssa.Const:
+				return x.Value == nil
+			}
+			return false
+		}
+		for _, re := range eng.Returns(fn) {
+			if v := re.Incoming(0); !direct(v, 0) {
+				bad = eng.Desc(v)
+			}
+		}
+		r.Check(bad == "", rule, "snapshot:"+eng.FuncName(fn), c.Pos(fn.Pos()), "returns the result of one call on the pending map", eng.FuncName(fn)+" hands out a slice that is not the result of a single call on the pending map ("+bad+"): assembled from separate lookups it is not a snapshot — an entry removed in between (MarkExecuted, eviction, expiry) leaves a nil element, and PackForCast's `item.(*types.Transaction)` panics on the casting path, which has no recover")
+	}
+	r.Check(n >= 1, rule, "snapshot:sites", "", fmt.Sprintf("%d slice-returning container methods", n), "no slice-returning method of simpleContainer found (asSlice expected)")
 }
